@@ -622,12 +622,27 @@ def mask_shift(rng):
             w = rng.choice(widths)
             m = (1 << w) - 1
             style = rng.choice(["shr-and", "div-and", "and-shifted-mask", "write-mul", "write-shl", "shl-and", "sar-and",
-                                "nested-or", "and-and"])
+                                "nested-or", "and-and", "nested-subword", "nested-subword", "shr-and-positioned"])
             feats.add(style)
             if k >= 256:
                 feats.add("shift>=256")
             if style == "shr-and":
                 a.emit(sp, "SLOAD", k, "SHR", ("push", m, None), "AND", 0, "MSTORE")
+            elif style == "nested-subword":
+                # ((sload >> k1) & m1) >> k2) & m2 [>> k3 & m3]: sub-words of sub-words
+                a.emit(sp, "SLOAD")
+                for _ in range(rng.randint(2, 3)):
+                    kk = rng.choice([0, 8, 16, 64, 100, 128, 160, 200, 248])
+                    ww = rng.choice([8, 16, 32, 64, 128, 160])
+                    pos = rng.choice([0, 0, 8, 64, 152])
+                    if kk:
+                        a.emit(kk, "SHR")
+                    a.emit(("push", (((1 << ww) - 1) << pos) & evm.M256, None), "AND")
+                a.emit(rng.choice([[0, "MSTORE"], [(s + 1) % 4, "SSTORE"]]))
+            elif style == "shr-and-positioned":
+                kk = rng.choice([8, 64, 100, 112, 128, 200])
+                pos = rng.choice([8, 64, 128, 152, 200, 240])
+                a.emit(sp, "SLOAD", kk, "SHR", ("push", (m << pos) & evm.M256, None), "AND", rng.choice([[0, "MSTORE"], [(s + 1) % 4, "SSTORE"]]))
             elif style == "sar-and":
                 a.emit(sp, "SLOAD", k, "SAR", ("push", m, None), "AND", 0, "MSTORE")
             elif style == "shl-and":
